@@ -111,6 +111,9 @@ class SStr:
     def __lt__(self, o):
         raise Unsupported("ordering of symbolic text")
 
+    def __deepcopy__(self, memo):
+        return self
+
     # ---- searching / splitting
     def find(self, sub, start=0, end=None):
         sub = citems(sub)
